@@ -644,9 +644,9 @@ def indices_to_json_extract(expression: exp.Expression) -> exp.Expression:
         and isinstance(index, exp.Literal)
         and index.this
     ):
-        # the children of a replaced node are not visited by transform, so convert chained indices
-        # eg: v['a'][0] here
-        this = indices_to_json_extract(expression.this)
+        # the children of a replaced node are not visited by transform, so convert the indices inside the
+        # indexed expression here, eg: v['a'][0] or parse_json(v['a']::varchar)['b']
+        this = expression.this.transform(indices_to_json_extract)
         if index.is_string:
             return exp.JSONExtract(this=this, expression=exp.Literal(this=f"$.{index.this}", is_string=True))
         else:
